@@ -39,20 +39,27 @@ MANIFEST = {
     "technique": "Coq/MathComp proof over any real field of the model of series/_hp.py and series/_ell_one.py written "
                  "once over an abstract matrix interface; the same text evaluated exactly on bigQ inside Coq against "
                  "the public API (tolerance tie); stencils/coefficients regenerated from the source",
-    "level_text": "Theorems (props/C14.v), for every length, observation pattern, constraint set and smoothing "
-                  "parameter: a solution of the bordered normal equations the model builds satisfies the constraints "
-                  "exactly and minimises the Hodrick-Prescott objective among all feasible trends, with "
-                  "J(t')-J(t) = (t'-t)'(E+lambda K'K)(t'-t) >= 0; it is the unique minimiser when the bordered matrix is "
-                  "invertible, which holds whenever lambda>0, two observations exist and the constraint rows are "
-                  "independent; trend+gap = data on observed rows and the gap is missing elsewhere; an affine series "
-                  "(also with gaps) is returned unchanged; log=True is the filter of the logarithms, exponentiated, and "
-                  "trend*gap = data; the requested span only selects rows. For lonf: trend+gap = data; the box-QP KKT "
-                  "conditions of the dual are equivalent to the subgradient optimality conditions of the l1 trend "
-                  "filter at trend = y - D'nu, and imply global optimality; the checker kkt_ok run on daqp's recorded "
-                  "output is proved sound (bounded suboptimality).",
+    "level_text": "Theorems (props/C14.v, 21, all closed under the global context), for every length, observation "
+                  "pattern, constraint set and smoothing parameter, over any real field: a solution of the bordered normal "
+                  "equations the model builds meets the level/change constraints exactly and minimises the Hodrick-Prescott "
+                  "objective (written out: squared deviations on observed periods + lambda * squared second differences) "
+                  "among all feasible trends, with J(t')-J(t) = (t'-t)'(E+lambda K'K)(t'-t) >= 0; it is the unique "
+                  "minimiser when the bordered matrix is invertible, which is proved whenever lambda>0, two periods are "
+                  "observed and the constraint rows are independent (then the solve contract is satisfiable); trend+gap = "
+                  "data on observed rows and the gap is missing exactly where the data are; an affine series, also with "
+                  "gaps and with constraints on the line, is returned unchanged; log=True is the filter of the logarithms, "
+                  "exponentiated, and trend*gap = data; a requested span inside the filter span only selects rows, and a "
+                  "span reaching beyond the data on the right leaves the trend unchanged and extrapolates it linearly. "
+                  "lonf: trend+gap = data; the KKT conditions of the box QP handed to daqp are equivalent to the "
+                  "subgradient optimality certificate of the l1 trend filter at trend = y - D'nu and make it the unique "
+                  "global minimiser (orders 1 and 2 written out); the checker kkt_ok run on daqp's recorded answer is "
+                  "proved sound (bounded suboptimality).",
     "level_note": "partial: numpy.linalg.solve and daqp are oracles (contract assumed in the theorems, checked per "
-                  "case by exact evaluation); rounding is outside (tolerance tie); numpy log/exp are black boxes; the "
-                  "Series plumbing around the filters is tied by correspondence through the public API only.",
+                  "case by exact evaluation inside Coq); rounding is outside (tolerance tie 1e-7*(1+|x|) against the exact "
+                  "rational solution); numpy log/exp are black boxes; extension of the span on the LEFT is checked by the "
+                  "falsifier only; the Series plumbing around both filters is tied by correspondence through the public "
+                  "API, the algebra by proof. Open findings: lonf drops all variants but the first (fixes/C14_1.patch); "
+                  "lonf returns nothing when the span contains a missing observation (fixes/C14_2.md).",
 }
 
 TOL = 1e-7
